@@ -170,12 +170,19 @@ func t2Compare(c *explore.Ctx, sig string, tc t2Case, desc any) {
 		return
 	}
 	c.Nontrivial()
+	// the known finding: a single step (operand) of more than 32000 units is clamped; points beyond +-32000
+	// that are reached by smaller steps are ordinary points
 	clamped := false
+	var px, py float64
 	for _, o := range ref.Ops {
-		for _, a := range o.Args {
-			if math.Abs(a) > 32000 {
+		if o.Kind == 'H' || o.Kind == 'K' {
+			continue
+		}
+		for k := 0; k+1 < len(o.Args); k += 2 {
+			if math.Abs(o.Args[k]-px) > 32000 || math.Abs(o.Args[k+1]-py) > 32000 {
 				clamped = true
 			}
+			px, py = o.Args[k], o.Args[k+1]
 		}
 	}
 	if clamped {
@@ -737,6 +744,43 @@ func c05Subrs(r *run.Run) {
 		})
 }
 
+// c05FarPoints: points beyond +-32000 that are reached by steps of at most 32000 units each.
+func c05FarPoints(r *run.Run) {
+	starts := []float64{30000, -30000, 31999, 0}
+	steps := []float64{2500, -2500, 32000, -32000, 700.5}
+	r.Explore(explore.Config{Name: "C05.far-points"},
+		"paths that start at x or y in {30000, -30000, 31999, 0} and go on with one or two steps from {2500, -2500, 32000, -32000, 700.5} (hlineto, vlineto, rlineto, rrcurveto, rmoveto): points beyond +-32000 that are reached by legal steps are decoded like any other point",
+		func(c *explore.Ctx) {
+			s0 := starts[c.Choose(len(starts), "start")]
+			horizontal := c.Bool("along x")
+			p := &t2prog{}
+			if horizontal {
+				p.num(s0).op(oHmoveto)
+			} else {
+				p.num(s0).op(oVmoveto)
+			}
+			n := 1 + c.Choose(2, "steps")
+			for i := 0; i < n; i++ {
+				d := steps[c.Choose(len(steps), "step")]
+				switch c.Choose(5, "operator") {
+				case 0:
+					p.num(d).op(oHlineto)
+				case 1:
+					p.num(d).op(oVlineto)
+				case 2:
+					p.nums(d, 10).op(oRlineto)
+				case 3:
+					p.nums(d, 1, 2, d, 3, 4).op(oRrcurveto)
+				default:
+					p.nums(5, d).op(oRmoveto)
+				}
+			}
+			p.op(oEndchar)
+			c.Sample(func() any { return p.desc })
+			t2Compare(c, "far points", t2Case{code: p.code}, p.desc)
+		})
+}
+
 // single-fault mutations of a base set of well-formed programs
 func c05Faults(r *run.Run) {
 	base := func() []*t2prog {
@@ -903,6 +947,7 @@ func init() {
 		c05Stems(r)
 		c05Subrs(r)
 		c05Faults(r)
+		c05FarPoints(r)
 		c05CID(r)
 		c05Sequences(r)
 	})
